@@ -72,6 +72,7 @@ type Enum[C any] struct {
 	Check       func(c C, o *Obs) error
 	QuickStride int // quick tier visits every QuickStride-th index (offset from the seed); <=1: all
 	Budget      time.Duration
+	Fresh       bool // write the case to disk before running it (crash attribution)
 }
 
 type failure struct {
@@ -464,9 +465,9 @@ func (e Enum[C]) generate(r *runner, t *testing.T) {
 		cs := e.At(i)
 		raw := caseJSON(cs)
 		o := &Obs{}
-		r.begin(e.Name, e.Budget, raw, false)
+		r.begin(e.Name, e.Budget, raw, e.Fresh)
 		err := safeCheck(e.Check, cs, o)
-		r.end(false)
+		r.end(e.Fresh)
 		r.record(e.Name, raw, o, err)
 		if err != nil {
 			t.Errorf("%s: index %d: %v", e.Name, i, firstLine(err.Error()))
